@@ -44,6 +44,12 @@ CHECKS["C16"] = dict(engine="enum", technique="bounded-exhaustive program enumer
 CHECKS["C12"] = dict(engine="govm", technique="stateless model checking: shutdown instant x pool size x request pattern, each under deviation-bounded exhaustive schedules (3 default policies) of the real TarsServer/tcpHandler/gpool over an in-memory network with virtual time",
              text="Real TarsServer + tcpHandler + gpool + Protocol + generated dispatcher; 1-2 scripted clients, 1-3 requests in flight or queued, handler durations 0/300/700/3000 ms, pool 0/1/2, Shutdown at 0/5/10/100 ms with ample or too-short context; all schedules within 2 deviations (3-4 in thorough). Every request the server read (network log) must be answered before its connection closes, accepted clients must get the reconnect notice, Shutdown must return at drain or context expiry, no receive loop may stay blocked on the job queue.",
              note="'already read' is taken from the vnet log; clients never close first; Shutdown may lag the drain by its 500 ms poll.", ref="§5 C12")
+CHECKS["C13"] = dict(engine="enum", technique="explicit-state model checking: BFS over Refresh/Add/Remove/Select histories replayed on fresh real selector objects, deduplicated by a digest of every field of the object, all random draws enumerated",
+             text="For each of the four selectors x weight switch x weight vectors over {-200,-1,0,1,2,10,100,101,250}^3 x weight types: BFS to depth 4 (6) over Refresh (all ordered lists of 3-4 hosts), Add, Remove, Select with every start position / every rand draw enumerated; membership, no panic, error iff nothing eligible, strict rotation windows, exact weighted shares per cycle.",
+             note="Sequential histories only in this revision; the concurrent selector/updater interleavings are explored by the govm engine in the C15/C01 scenarios and the race pass. Canonical key = digest of all fields (cursor mod cycle length), read by in-package accessors.", ref="§5 C13")
+CHECKS["C14"] = dict(engine="enum", technique="explicit-state model checking: BFS over Add/Remove/Refresh histories on the real hash selectors, canonical state = member set / ordered list, routing tables compared with an independent Ketama ring and across histories",
+             text="Consistent hash (Ketama and default hash, weighted and unweighted) and mod-hash (plain, static weights), universe of 4-5 hosts, depth 5 (7): routing table over ~5300 probe codes (every ring point +-1, 0, 2^32-1, sweep) must equal an independently computed ring, be identical for all histories reaching the same set, and change only for codes of the removed / onto the added endpoint; mod-hash slot rule.",
+             note="Ring-point collisions between hosts are excluded at start; the end-to-end hashed call is exercised in the C15 scenarios.", ref="§5 C14")
 NOT_YET = {}
 ALL = ["C%02d" % i for i in range(1, 21)]
 
